@@ -70,7 +70,12 @@ def classify(case, obs):
         for a in (v["list"] if isinstance(v, dict) else [v]):
             if a[0] not in ("str", "path"):
                 continue
-            if any(ch in WS or ch in "'\"\\" for ch in a[1]):
+            s = a[1]
+            # what shlex re-tokenises: blank, tab, CR, LF, quotes, backslash ...
+            if any(ch in " \t\n\r'\"\\" for ch in s):
+                return "F23"
+            # ... and what str.strip() in argstr_formatting removes at the ends of a templated argument
+            if templated and s and (s[0] in WS or s[-1] in WS):
                 return "F23"
             if templated and any(ch in "{}[]," for ch in a[1]):
                 cls = "F23b"
